@@ -126,6 +126,23 @@ def c06_refused_no_effect(stream, res, impl):
 
 def c07_withdraw(stream, res, impl):
     """paid + owed is conserved up to the fee by a withdrawal; a failed/refused one pays nothing"""
+    if stream["component"] == "conc":
+        for op, out in zip(res, impl):
+            t = op.split()
+            if len(t) > 1 and t[1] == "withdraw" and out.startswith("ok"):
+                a, o = _kv(op), _kv(out)
+                try:
+                    rounds = max(1, int(a.get("rounds", "1")))
+                    credit, fee = int(a["credit"]), int(a["fee"])
+                    succ, paid, left, mi = int(o["successes"]), int(o["paid"]), int(o["left"]), int(o["maxinflight"])
+                except (KeyError, ValueError):
+                    continue
+                if mi > 1:
+                    return "%d settlements of one wallet were in flight at the same time (%s -> %s)" % (mi, op[:160], out)
+                if paid + left + fee * succ != rounds * credit or succ > rounds:
+                    return ("racing withdrawals of one wallet: %d round(s) of %d earned, %d paid out in %d successful withdrawals (fee %d), %d left: "
+                            "the same earnings were paid more than once or lost (%s)" % (rounds, credit, paid, succ, fee, left, op[:160]))
+        return None
     if stream["component"] != "pool":
         return None
     cfg = {}
@@ -289,10 +306,22 @@ def c13_persist(stream, res, impl):
         return None
     last_dump = None
     after_reopen = False
+    prepared = None
     for op, out in zip(res, impl):
         t = op.split()
         if len(t) < 2:
             continue
+        if t[1] == "prepare":
+            prepared = (_kv(op).get("content"), _kv(op).get("version"), 0)
+        elif t[1] == "open" and prepared and out == "ok":
+            prepared = (prepared[0], prepared[1], 1)
+        elif t[1] == "dump" and prepared and prepared[2] == 1:
+            if prepared[0] is not None and out.startswith("ok ") and out[3:] != prepared[0]:
+                return ("opening a format-%s database changed its nodes / peers / balances: before the migration %s, after it %s"
+                        % (prepared[1], prepared[0][:400], out[3:][:400]))
+            prepared = None
+        elif t[1] != "version":
+            prepared = None
         if t[1] == "dump" and out.startswith("ok "):
             if after_reopen and last_dump is not None and out != last_dump:
                 return "state read back after reopen differs from the state acknowledged before it"
@@ -467,4 +496,286 @@ def c05_nonce(stream, res, impl):
                     if r:
                         return r
                     break
+    return None
+
+
+def _sig_fields(t):
+    """(identity, nonce, kind) of a signed pool op: the nonce is the first time token, preceded by the identity and
+    followed by the signature kind"""
+    for i in range(2, len(t) - 1):
+        if t[i].startswith("t:"):
+            try:
+                return t[i - 1], int(t[i][2:]), t[i + 1]
+            except ValueError:
+                return None
+    return None
+
+
+SIGNED_OPS = ("connect", "update", "peer", "host", "client", "addnode", "withdraw")
+NONCE_WINDOW_NS = 15 * 60 * 10**9
+
+
+def c04_altered_refused(stream, res, impl):
+    """a request whose signature does not cover exactly (method, identity, nonce, parameters) under the named
+    identity's key is refused; and (C06) a refused request does not consume the identity's nonce"""
+    if stream["component"] != "pool":
+        return None
+    honoured, burned = {}, {}
+    for op, out in zip(res, impl):
+        t = op.split()
+        if len(t) < 2 or "#skipped" in op or out in ("noop", ""):
+            continue
+        if t[1] == "cfg":
+            honoured, burned = {}, {}
+        if t[1] not in SIGNED_OPS:
+            continue
+        f = _sig_fields(t)
+        if not f:
+            continue
+        ident, nonce, kind = f
+        refused = out.startswith("err VerifyFailed")
+        if kind not in ("good", "oldfmt"):
+            if not refused:
+                return "request with signature kind `%s` was carried out: %s -> %s" % (kind, op[:200], out[:120])
+            burned[ident] = max(burned.get(ident, nonce), nonce)
+            continue
+        now = _kv(op).get("now", "")
+        now = int(now[2:]) if now.startswith("t:") else None
+        if refused:
+            fresh = now is not None and nonce > now - NONCE_WINDOW_NS + 10**9
+            if fresh and nonce > honoured.get(ident, 0) and ident in burned and nonce <= burned[ident]:
+                return ("correctly signed request of %s with fresh nonce %d (last honoured %d) refused after a refused forgery with nonce %d: "
+                        "the forgery consumed the nonce: %s" % (ident, nonce, honoured.get(ident, 0), burned[ident], op[:200]))
+        else:
+            honoured[ident] = max(honoured.get(ident, nonce), nonce)
+    return None
+
+
+def c04_c06(stream, res, impl):
+    return c04_altered_refused(stream, res, impl) or c06_refused_no_effect(stream, res, impl)
+
+
+def c03_cutoff(stream, res, impl):
+    """a keep-alive cut off for low balance asks exactly the connected hosts among the client's active peers to
+    disconnect it, each once; the reported balance is the stored one"""
+    if stream["component"] != "pool":
+        return None
+    pending = None
+    for t, out, reg in _registry_sim(res, impl):
+        if t[1] == "dump" and pending is not None:
+            d = _dump(out)
+            who, got, line = pending
+            pending = None
+            if d is None:
+                continue
+            want = sorted(reg[h] for h in d["peers"].get(who, []) if h in reg)
+            if sorted(got) != want:
+                return "low-balance cut-off of %s: disconnect calls went to %s, its connected active peers are on %s (%s)" % (who, sorted(got), want, line[:200])
+        elif t[1] == "update" and out.startswith("err LowBalance"):
+            okv = _kv(out)
+            if "unexpected-disconnect" in okv:
+                continue
+            pending = (t[2], [c for c in okv.get("disconnect", "").split(",") if c], " ".join(t))
+        elif t[1] != "dump":
+            pending = None
+    return None
+
+
+EXPIRE_NS = 120 * 10**9
+
+
+def c11_expiry(stream, res, impl):
+    """a keep-alive declares invalid exactly the tracked-or-reported registered peers whose recorded check-in is
+    older than the expiry window; the others stay tracked"""
+    comp = stream["component"]
+    last, tracked = {}, {}
+
+    def ts(tok):
+        return int(tok[2:]) if tok.startswith("t:") else int(tok)
+    for op, out in zip(res, impl):
+        t = op.split()
+        if len(t) < 2 or "#skipped" in op or out in ("noop", ""):
+            continue
+        if t[0] == "case" or t[1] == "cfg":
+            last, tracked = {}, {}
+        try:
+            if comp == "store":
+                if t[1] == "setnode" and out == "ok":
+                    last[t[2]] = ts(t[3])
+                elif t[1] == "unp" and out.startswith("ok inactive="):
+                    node, now = t[2], ts(_kv(op)["now"])
+                    peers = [x for x in _kv(op).get("peers", "").split(",") if x]
+                    got = sorted(x for x in out[len("ok inactive="):].split(",") if x)
+                elif t[1] == "peers" and out.startswith("ok peers="):
+                    want = sorted(p for p in tracked.get(t[2], {}) if p in last)
+                    got = sorted(x for x in out[len("ok peers="):].split(",") if x)
+                    if got != want:
+                        return "store tracks peers %s for %s, the keep-alive history leaves %s" % (got, t[2], want)
+                    continue
+                else:
+                    continue
+                if t[1] == "setnode":
+                    continue
+            elif comp == "pool":
+                if t[1] == "dump":
+                    d = _dump(out)
+                    if d is not None:
+                        last = {k: v["lastSeen"] for k, v in d["nodes"].items()}
+                    continue
+                if t[1] == "setnode" and out == "ok":
+                    last[t[2]] = ts(t[3])
+                    continue
+                if t[1] in ("connect", "host", "client") and out.startswith("ok"):
+                    # (re)registration stamps the node with the pool's clock
+                    last[t[3]] = ts(_kv(op)["now"])
+                    continue
+                if t[1] != "update" or not out.startswith("ok invalid="):
+                    continue
+                node, now = t[2], ts(_kv(op)["now"])
+                peers = [x for x in _kv(op).get("peers", "").split(",") if x]
+                got = sorted(x for x in _kv(out).get("invalid", "").split(",") if x)
+            else:
+                return None
+        except (KeyError, ValueError, IndexError):
+            continue
+        if node not in last:
+            continue
+        last[node] = now
+        tr = tracked.setdefault(node, {})
+        for p in peers:
+            if p in last:
+                tr[p] = last[p]
+        want = sorted(p for p, v in tr.items() if v <= now - EXPIRE_NS)
+        for p in want:
+            del tr[p]
+        if got != want:
+            return ("keep-alive of %s at %d declared %s invalid; the peers whose recorded check-in is older than the window are %s (%s)"
+                    % (node, now, got, want, op[:200]))
+    return None
+
+
+def c16_surface(stream, res, impl):
+    """only registered names are callable, and never with a parameter count the declaration does not admit; a refused
+    call does not run the method"""
+    if stream["component"] != "srv":
+        return None
+    table = {}
+    for op, out in zip(res, impl):
+        t = op.split()
+        if len(t) < 2:
+            continue
+        if t[0] == "case":
+            table = {}
+        if t[1] == "reg" and out == "ok":
+            kv = _kv(op)
+            pre = "" if t[2] == "~" else t[2]
+            allow = [a for a in kv.get("allow", "").split(",") if a]
+            for m in [m for m in kv.get("methods", "").split(",") if m]:
+                name, _, types = m.partition(":")
+                name = name.rstrip("!")
+                rpc = name[:1].lower() + name[1:]
+                if allow and rpc not in allow:
+                    continue
+                table.setdefault(pre + rpc, [x for x in types.split(".") if x])
+        elif t[1] == "call" and len(t) >= 4:
+            name = "" if t[2] == "~" else t[2]
+            tok = t[3]
+            ran = _kv(out).get("inv", "0") != "0"
+            if (out.startswith("err InvalidParams") or out.startswith("err MethodNotFound")) and ran:
+                return "call refused as %s although the method ran: %s -> %s" % (out.split()[1], op, out)
+            if name not in table:
+                if not out.startswith("err MethodNotFound") or ran:
+                    return "`%s` is not a registered RPC name, yet the call was not refused as method-not-found: %s -> %s" % (name, op, out)
+                continue
+            types = table[name]
+            if tok == "nonarray":
+                k = None
+            elif tok in ("absent", "null", "[]"):
+                k = 0
+            else:
+                k = len(tok.split("."))
+            bad = k is None or k > len(types) or any(not ty.startswith("p") for ty in types[k:])
+            if bad and (out.startswith("result") or ran):
+                return ("`%s` declares %d parameter(s) (%s); a call with %s was carried out: %s -> %s"
+                        % (name, len(types), ".".join(types) or "none", "non-array params" if k is None else "%d parameter(s)" % k, op, out))
+    return None
+
+
+_HOSTPORT = re.compile(r"^(\[[^\[\]]+\]|[^:\[\]]+):(\d+)$")
+
+
+def c19_advertised(stream, res, impl):
+    """every host the pool stores/advertises carries its own id and an address that splits into host and port"""
+    if stream["component"] != "pool":
+        return None
+    injected = set()
+    for op, out in zip(res, impl):
+        t = op.split()
+        if len(t) > 2 and t[1] == "cfg":
+            injected = set()
+        if len(t) > 2 and t[1] == "setnode":
+            injected.add(t[2])  # a record the harness wrote into the store directly, not one the pool registered
+        if len(t) > 3 and t[1] in ("connect", "host") and out.startswith("ok"):
+            injected.discard(t[3])
+        if len(t) < 2 or t[1] != "dump":
+            continue
+        d = _dump(out)
+        if d is None:
+            continue
+        for name, n in d["nodes"].items():
+            if name in injected:
+                continue
+            rest = n["rest"].split(":")
+            uri = ":".join(rest[:-2])
+            if uri in ("", "~") or not n["isHost"]:
+                continue
+            m = re.match(r"^enode://([^@]*)@(.*)$", uri)
+            if not m:
+                return "host %s is stored under the URI %s, which is not enode://id@host:port" % (name, uri)
+            if m.group(1) != name:
+                return "host %s is advertised under the identity %s (%s)" % (name, m.group(1), uri)
+            hp = _HOSTPORT.match(m.group(2).split("?")[0])
+            if not hp or not (0 < int(hp.group(2)) < 65536):
+                return "host %s is advertised at %s, which does not split into a dialable host and port (%s)" % (name, m.group(2), uri)
+    return None
+
+
+def c20_life(stream, res, impl):
+    """one loop at a time; a running loop can always be stopped; after it ended the agent can be started again"""
+    if stream["component"] != "agentlife":
+        return None
+    loops = 0
+    for op, out in zip(res, impl):
+        t = op.split()
+        if len(t) < 2:
+            continue
+        if t[1] == "reset":
+            loops = 0
+        elif t[1] == "start" and len(t) > 2:
+            if loops == 1 and not out.startswith("err AlreadyStarted"):
+                return "a second start while the loop is running was not refused: %s" % out
+            if loops == 0 and out.startswith("err AlreadyStarted"):
+                return "start refused as already started although no loop is running (the previous run has ended)"
+            if loops == 0 and out == "ok" and t[2] == "ok":
+                loops = 1
+        elif t[1] == "start2":
+            outs = sorted(out.split(","))
+            if loops == 0 and outs != ["err AlreadyStarted", "ok"]:
+                return "two racing starts: %s (exactly one must be accepted)" % out
+            if loops == 1 and outs != ["err AlreadyStarted", "err AlreadyStarted"]:
+                return "racing starts while a loop is running: %s" % out
+            loops = 1
+        elif t[1] == "stop":
+            if loops == 1 and out == "blocked":
+                return "stop of a running agent did not return"
+            if out != "blocked":
+                loops = 0
+        elif t[1] == "run":
+            m = re.match(r"loops=(\d+)", out)
+            if m and int(m.group(1)) > 1:
+                return "%s keep-alive loops are running at once" % m.group(1)
+            if m and int(m.group(1)) != loops:
+                return "%s keep-alive loop(s) running, the start/stop history leaves %d" % (m.group(1), loops)
+            if len(t) > 2 and t[2] == "fail":
+                loops = 0
     return None
